@@ -19,7 +19,8 @@ def timeout_us():
     """the check's time-out as the code under test has it (regenerated)"""
     from ..common import gen_params
 
-    return gen_params().get("p_check_timeout", TIMEOUT_US)
+    v = gen_params().get("p_check_timeout", TIMEOUT_US)
+    return v if v > 0 else TIMEOUT_US  # unreadable: reported as a broken obligation; the literal is the best guess
 
 
 def make_receiver(zones, swallow_first, missing):
